@@ -18,6 +18,14 @@ pub(crate) fn mk_index1(hash_length: usize, key: &[u8], size: usize, off: u64) -
     map.insert(k, ChunkLocation { size, offsets });
     ChunkIndex { map, hash_length }
 }
+pub(crate) fn add_entry2(idx: &mut ChunkIndex, key: &[u8], size: usize, off0: u64, off1: u64) {
+    let mut k = HashSum::from(key);
+    k.truncate(idx.hash_length);
+    let mut offsets = Vec::with_capacity(2);
+    offsets.push(off0);
+    offsets.push(off1);
+    idx.map.insert(k, ChunkLocation { size, offsets });
+}
 pub(crate) fn add_entry(idx: &mut ChunkIndex, key: &[u8], size: usize, off: u64) {
     let mut k = HashSum::from(key);
     k.truncate(idx.hash_length);
